@@ -254,10 +254,12 @@ class MinerWatcher:
             # we didn't mine the block
             return
 
+        # apply (and thereby fully validate) the block first, so that the state handed to the chain manager, i.e. the
+        # state served to peers and used for the next candidate, actually contains the block we just found.
+        self.coinstate = self.coinstate.add_block(block, int(time()))
+
         self.network_thread.local_peer.chain_manager.set_coinstate(self.coinstate)
         self.network_thread.local_peer.network_manager.broadcast_block(block)
-
-        self.coinstate = self.coinstate.add_block(block, int(time()))
 
         self.network_thread.local_peer.disk_interface.save_block(block)
         self.network_thread.local_peer.disk_interface.flush_blocks()
